@@ -407,6 +407,53 @@ fn check_message(st: &mut St, us: &[U], idx: &[usize]) {
             });
         }
     }
+    // every capacity below the full output: a response is written completely (with its
+    // newline) or not at all.  Specified content: the responses in order, each taken if it still
+    // fits - or, with C06's latitude for the units after a failed one, only those in front of
+    // the first one that does not fit.
+    if o.end == End::Returned && tail.is_empty() && !ch.is_empty() {
+        let total: usize = ch.iter().map(|c| c.len()).sum();
+        for cap in 1..total.min(66) {
+            let mut greedy: Vec<u8> = vec![];
+            let mut until_first: Vec<u8> = vec![];
+            let mut failed = false;
+            for c in &ch {
+                if greedy.len() + c.len() <= cap {
+                    greedy.extend_from_slice(c);
+                    if !failed {
+                        until_first.extend_from_slice(c);
+                    }
+                } else {
+                    failed = true;
+                }
+            }
+            let held: Option<(bool, Vec<u8>)> = mc::with_n!(cap, N => {
+                let mut r3 = Resp;
+                let mut hx: heapless::Vec<u8, N> = heapless::Vec::new();
+                let o3 = run_on(&mut r3, &msg, &mut hx, Pattern::NONE);
+                (o3.end == End::Returned, hx.to_vec())
+            });
+            st.formats += 1;
+            if let Some((true, held)) = held {
+                if held != greedy && held != until_first {
+                    let f = vec![
+                        ("kind", "bounded-writer-holds-a-partial-or-foreign-response".to_string()),
+                        ("units", idx.len().to_string()),
+                        ("room_for_the_data_but_not_the_newline", ch.iter().any(|c| c.len() == cap + 1 || greedy.len() + c.len() == cap + 1).to_string()),
+                    ];
+                    st.groups.add("run-responses", &f, (msg.len() * 100 + cap, &msg), || {
+                        (
+                            json!({"part": "run", "message": hex(&msg), "units": idx, "capacity": cap}),
+                            format!(
+                                "run(\"{}\") into heapless::Vec<u8,{cap}>: the writer holds \"{}\"; responses are {:?}, so \"{}\" (or \"{}\") is specified: each response completely or not at all",
+                                show(&msg), show(&held), ch.iter().map(|c| show(c)).collect::<Vec<_>>(), show(&greedy), show(&until_first)
+                            ),
+                        )
+                    });
+                }
+            }
+        }
+    }
     // admissible executions: after each faulty unit either all or none of the later units run
     let mut ok = false;
     let mut why = String::new();
@@ -601,6 +648,7 @@ fn main() {
                "strings": {"alphabet": STR_ALPHA.iter().map(|s| show(s.as_bytes())).collect::<Vec<_>>(), "max_len": if thorough { 5 } else { 4 }, "count": strs.len(), "types": ["&str", "heapless::String<32>"]},
                "blocks": "lengths 0,1,9,10,99,100,999,1000 with every byte value first and last; all 65536 two-byte blocks; Characters",
                "composites": "tuples of arity 2..4, nested tuples, slices and heapless::Vec of length 0..3 over integer / string / float / tuple elements, Error, ()",
+               "run_path_capacities": "every capacity 1..min(|output|, 66) - 1 of the shipped heapless writer for every run message: each response completely (with its newline) or not at all",
                "writers": ["pass-through buffer", "heapless::Vec<u8,4096>", "heapless::Vec<u8,L> with exactly |response| = L for L <= 24 (and 32/48/64 for longer ones)", "recording writer"],
                "run": {"units": us.iter().map(|u| u.text).collect::<Vec<_>>(), "messages": "all sequences of <=3 units"}}),
     );
